@@ -3,29 +3,43 @@ C09 / C08 — Chomsky normal form keeps the language (minus the empty word) and 
 promised shape; CYK on a normal form and `contains` are exact.
 -/
 import Pfl.Props.C09_Clean
+import Pfl.Proofs.CFGCNF
 namespace Pfl
 namespace CFG
 
 /-- whenever `to_normal_form` returns, the result generates the same non-empty words -/
 theorem toNormalForm_lang (G : CFG) (hG : G.WF) (fuel : Nat) (N : CFG)
     (h : G.toNormalForm fuel = some N) (w : List String) :
-    N.Lang w ↔ G.Lang w ∧ w ≠ [] := by
-  sorry
+    N.Lang w ↔ G.Lang w ∧ w ≠ [] :=
+  toNormalForm_lang_aux fuel G hG N h w
 
-/-- and consists of productions of the two Chomsky forms only -/
-theorem toNormalForm_isNormalForm (G : CFG) (fuel : Nat) (N : CFG)
-    (h : G.toNormalForm fuel = some N) : N.isNormalForm = true := by
-  sorry
+/-- and consists of productions of the two Chomsky forms only (well-formedness is needed:
+terminals that are not registered in `G.ters` are never lifted) -/
+theorem toNormalForm_isNormalForm (G : CFG) (hG : G.WF) (fuel : Nat) (N : CFG)
+    (h : G.toNormalForm fuel = some N) : N.isNormalForm = true :=
+  toNormalForm_isNormalForm_wf fuel G hG N h
 
 /-- CYK on a grammar in normal form decides membership of non-empty words -/
 theorem cyk_iff (N : CFG) (hN : N.isNormalForm = true) (w : List String) (hw : w ≠ []) :
     N.cyk w = true ↔ N.Lang w := by
-  sorry
+  rw [cyk_iff_gen N hN w hw, lang_iff_gen]
 
 /-- `contains`: whenever it answers, the answer is derivability (the empty word included) -/
 theorem contains_iff (G : CFG) (hG : G.WF) (w : List String) (fuel : Nat) (b : Bool)
     (h : G.contains w fuel = some b) : b = true ↔ G.Lang w := by
-  sorry
+  unfold contains at h
+  by_cases hw : w = []
+  · subst hw
+    simp only [List.isEmpty_nil, if_true, Option.some.injEq] at h
+    subst h
+    exact generateEpsilon_iff G
+  · have he : w.isEmpty = false := by simpa using hw
+    rw [he] at h
+    simp only [Bool.false_eq_true, if_false, Option.map_eq_some_iff] at h
+    obtain ⟨N, hN, rfl⟩ := h
+    rw [cyk_iff N (toNormalForm_isNormalForm G hG fuel N hN) w hw,
+      toNormalForm_lang G hG fuel N hN w]
+    exact ⟨fun h => h.1, fun h => ⟨h, hw⟩⟩
 
 end CFG
 end Pfl
